@@ -3,7 +3,6 @@ package c06
 import (
 	"fmt"
 	"go/token"
-	"sort"
 	"strings"
 
 	"golang.org/x/tools/go/ssa"
@@ -241,7 +240,9 @@ func (x *Exec) handleLoop(pre *State, l *ssau.Loop, from *ssa.BasicBlock) {
 		st := hdrExit.st
 		variant := false
 		for _, v := range eff {
-			if v.mentions(func(sym string) bool { return strings.Contains(sym, "φ("+hdr+".") || strings.Contains(sym, "~"+fmt.Sprint(len(pre.regions)+1)) }) {
+			if v.mentions(func(sym string) bool {
+				return strings.Contains(sym, "φ("+hdr+".") || strings.Contains(sym, "~"+fmt.Sprint(len(pre.regions)+1))
+			}) {
 				variant = true
 			}
 		}
@@ -381,7 +382,8 @@ func (x *Exec) tripCount(reg *region, phis []*ssa.Phi, init map[*ssa.Phi]AV, ste
 	if ivPhi == nil || !stepOK[ivPhi] {
 		return Poly{}, false
 	}
-	if s, ok := step[ivPhi].constVal(); !ok || s != 1 {
+	sv, ok := step[ivPhi].constVal()
+	if !ok || (sv != 1 && sv != -1) {
 		return Poly{}, false
 	}
 	in, ok := init[ivPhi].(Num)
@@ -394,22 +396,25 @@ func (x *Exec) tripCount(reg *region, phis []*ssa.Phi, init map[*ssa.Phi]AV, ste
 			return Poly{}, false // non-linear
 		}
 	}
+	if coef != 1 && coef != -1 {
+		return Poly{}, false
+	}
 	atInit := c.P.subst(ivSym, in.P)
-	switch {
-	case coef == 1 && op == token.LSS: // continue while P(φ) < 0
+	// one iteration changes P by d = coef·step
+	switch d := coef * sv; {
+	case d == 1 && op == token.LSS: // P rises towards 0; continue while P < 0
 		return atInit.neg(), true
-	case coef == 1 && op == token.LEQ:
+	case d == 1 && op == token.LEQ:
 		return atInit.neg().add(pconst(1)), true
-	case coef == -1 && op == token.GTR:
-		return atInit, true
-	case coef == -1 && op == token.GEQ:
-		return atInit.add(pconst(1)), true
-	case coef == 1 && op == token.NEQ:
+	case d == 1 && op == token.NEQ:
 		return atInit.neg(), true
-	case coef == -1 && op == token.NEQ:
+	case d == -1 && op == token.GTR: // P falls towards 0; continue while P > 0
+		return atInit, true
+	case d == -1 && op == token.GEQ:
+		return atInit.add(pconst(1)), true
+	case d == -1 && op == token.NEQ:
 		return atInit, true
 	}
 	return Poly{}, false
 }
 
-var _ = sort.Strings
